@@ -187,18 +187,28 @@ func L1Plan(prop, tier string) []*Cube {
 	case "C09":
 		add("p", small, N1, both, FamPre, FamJobCancel)
 		// a dependent becomes ready, waits for the only worker, and the context is cancelled by the job occupying it
-		add("c", indepThenDep, N1, both, Family{Name: "jobcancel-mid", Outcomes: []int{OutOK, OutCancel}, PerJob: [][]int{{OutOK}, {OutOK, OutCancel}, {OutOK}}})
+		add("c", indepThenDep, N1, both, Family{Name: "jobcancel-mid", Outcomes: []int{OutOK, OutCancel}, PerJob: [][]int{{OutOK}, {OutCancel}, {OutOK}}})
 		add("t", append(j1, chain2...), N1, both, FamTimer, FamHang)
 		if !q {
 			add("q", small, []int{2}, both, FamPre, FamJobCancel, FamTimer, FamHang)
 			add("b", j3, N1, both, FamJobCancel)
 		}
+	case "C12":
+		add("a", small, N12, both, FamPlain)
+		add("g", append(j1, chain2...), N12, ff, FamGoexit)
+		add("p", chain2, N1, both, FamJobCancel)
+		if !q {
+			add("b", j3, N12, both, FamPlain)
+		}
+		for _, c := range cubes {
+			c.Race = true
+		}
 	case "C19":
 		add("a", small, N1, both, FamEmit)
-		// invalidated jobs at the front of the ready list
-		add("f", fanOut3, N1, coe, Family{Name: "emit-headfails", Outcomes: []int{OutOK, OutErr}, PerJob: [][]int{{OutErr}, {OutOK}, {OutOK}}, Emitter: true, Ticks: 1})
 		add("n", j1, []int{2}, ff, FamEmit)
 		if !q {
+			// invalidated jobs at the front of the ready list (unsat proof > 20 min: thorough only)
+			add("f", fanOut3, N1, coe, Family{Name: "emit-headfails", Outcomes: []int{OutOK, OutErr}, PerJob: [][]int{{OutErr}, {OutOK}, {OutOK}}, Emitter: true, Ticks: 1})
 			add("b", small, N12, both, FamEmit2)
 			add("c", dagShapes(3, 1, true), N1, ff, FamEmit)
 		}
@@ -314,6 +324,9 @@ func RunL1Cube(P *Program, c *Cube, prop string, solver string, timeoutMs int) (
 	defer sv.Close()
 	var obs []Obligation
 	for _, ob := range l.Obligations() {
+		if f := os.Getenv("VERIF_ONLYOB"); f != "" && !ob.WantSat && !strings.Contains(ob.Name, f) {
+			continue
+		}
 		if l1Relevant(prop, ob) {
 			if prop == "C03" && ob.Prop == "C05" {
 				ob.Oracle = "C05"
@@ -339,12 +352,19 @@ func RunL1Cube(P *Program, c *Cube, prop string, solver string, timeoutMs int) (
 	// 1. all unsat-expected obligations at once; on sat the model tells which
 	// obligation it violates, and the rest is asked again as one disjunction
 	remaining := []Obligation{}
+	var bounds []Obligation
 	for _, ob := range obs {
-		if !ob.WantSat {
+		if ob.WantSat {
+			continue
+		}
+		if ob.Prop == "bound" || ob.Prop == "fault" {
+			bounds = append(bounds, ob)
+		} else {
 			remaining = append(remaining, ob)
 		}
 	}
-	res.Obligations = len(remaining)
+	res.Obligations = len(remaining) + len(bounds)
+	phase := 0 // 0: property obligations (a violation is found without paying for the bound proofs), 1: bounds
 	recordViolation := func(ob Obligation, m map[int]uint64) {
 		if ob.Prop == "bound" || ob.Prop == "fault" {
 			res.Inconcl = true
@@ -364,7 +384,23 @@ func RunL1Cube(P *Program, c *Cube, prop string, solver string, timeoutMs int) (
 		viol.Sig = l.Signature(ob, viol)
 		res.Violations = append(res.Violations, viol)
 	}
-	for len(remaining) > 0 {
+	for {
+		if len(remaining) == 0 {
+			if phase == 0 {
+				phase = 1
+				remaining = bounds
+				if len(res.Violations) > 0 && os.Getenv("VERIF_ALLBOUNDS") == "" {
+					// a reproduced violation stands on its own; the bound proofs only
+					// matter for "holds" verdicts
+					for _, ob := range bounds {
+						res.Obs = append(res.Obs, ObResult{Prop: ob.Prop, Name: ob.Name, Verdict: "skipped (violation found)"})
+					}
+					break
+				}
+				continue
+			}
+			break
+		}
 		any := B.False
 		var want []*Term
 		for _, ob := range remaining {
@@ -373,7 +409,15 @@ func RunL1Cube(P *Program, c *Cube, prop string, solver string, timeoutMs int) (
 		}
 		want = append(want, l.ModelTerms()...)
 		t1 := time.Now()
-		v, m := check(any, want)
+		var v Verdict = Unknown
+		var m map[int]uint64
+		// targeted cubes (restricted outcomes) are meant to find a specific
+		// violation pattern quickly: their obligations are asked one by one
+		// (measured: a disjunction of obligations can take z3 far longer to
+		// satisfy than the one violated disjunct)
+		if !(phase == 0 && len(c.PerJob) > 0 && len(remaining) > 1) {
+			v, m = check(any, want)
+		}
 		secs := time.Since(t1).Seconds()
 		if v == Unsat {
 			for _, ob := range remaining {
@@ -396,6 +440,13 @@ func RunL1Cube(P *Program, c *Cube, prop string, solver string, timeoutMs int) (
 				case Sat:
 					recordViolation(ob, m2)
 				}
+				if len(res.Violations) > 0 && len(c.PerJob) > 0 {
+					break // targeted cube: one reproduced violation is the answer
+				}
+			}
+			if phase == 0 && len(res.Violations) == 0 {
+				remaining = nil
+				continue
 			}
 			break
 		}
